@@ -237,7 +237,7 @@ def rule_ctor(prog, rep):
                          "merge_cond_shapes on all children; the validators and __check_init__ methods raise on the "
                          "documented predicate with exact tuple comparisons (no broadcasting array comparison); "
                          "Coupling / MaskedAutoregressive / BlockAutoregressiveNetwork reject non-scalar or "
-                         "conditional transformers", minimum=20)
+                         "conditional transformers", minimum=22)
     for q, (argn, src) in FUNC_REFS.items():
         m, fn = prog.func(q)
         args = [("sym", a) for a in argn]
@@ -274,6 +274,19 @@ def rule_ctor(prog, rep):
             ok = bool(calls) and any(any(z == args[0] for z in walk(s)) for s in calls)
             rep.check(ok, "C13.ctor", site, f"{c.name}.__init__ calls {short}",
                       f"{short}(...) on the children", f"{c.name}.__init__ does not call {short} on its children")
+    # Vmap constructor: exactly one of in_axes / axis_size, wrappers in in_axes rejected
+    c = prog.cls("flowjax.bijections.jax_transforms.Vmap")
+    it = Interp(prog, no_inline={"flowjax.bijections.jax_transforms._infer_axis_size_from_params"})
+    IA, AS = ("sym", "IN_AXES"), ("sym", "AXIS_SIZE")
+    it.eval_init(c, [("sym", "BIJ")], {"in_axes": IA, "axis_size": AS, "in_axes_condition": ("sym", "IAC")})
+    gl = guard_list(it)
+    both = ("and", (("cmp", "is not", IA, C(None)), ("cmp", "is not", AS, C(None))))
+    rep.check(any(equal(g[0], both) for g in gl), "C13.ctor", method_site(prog, c, "__init__"),
+              "Vmap.__init__:rejects-both-in_axes-and-axis_size", "raises when both are given",
+              f"no guard on {show(both, 120)}; guards: {[show(g[0], 80) for g in gl][:4]}")
+    neither = [g for g in gl if any(s2 == ("cmp", "is", IA, C(None)) for s2 in walk(g[0])) or equal(g[0], ("cmp", "is", IA, C(None)))]
+    rep.check(bool(neither), "C13.ctor", method_site(prog, c, "__init__"), "Vmap.__init__:rejects-neither",
+              "raises when neither in_axes nor axis_size is given", "no guard for the case that neither is given")
     for q in TRANSFORMER_GUARDS + ["flowjax.bijections.block_autoregressive_network.BlockAutoregressiveNetwork"]:
         c = prog.cls(q)
         r = prog.find_method(c, "__init__")
